@@ -65,7 +65,7 @@ pub fn run(cfg: &Cfg, rep: &mut Report) {
     let mut rng = Rng::new(cfg.seed ^ 0xC18);
     let corpus = Corpus::load();
     rep.rule = "documents (grammar/palette/bytes/corpus) and direct trees x random option vectors, each rendered with sourcepos on and off by HTML, XML and CommonMark formatters; distinct_nontrivial counts distinct (node-kind sequence, option bits) classes with more than the Document node".into();
-    let n = if cfg.tier_thorough { 100_000 } else if cfg.full { 30_000 } else { 5_000 };
+    let n = if cfg.tier_thorough { 100_000 } else if cfg.full { 30_000 } else { 12_000 };
     let mut done = 0;
     while done < n {
         let mut bt = Batch::new();
